@@ -44,51 +44,64 @@ def ctxInsert (c : Nat) (l : List Nat) : List Nat := if c ∈ l then l else c ::
 /-- the frame is a context registration: `xs.context` in the zero context -/
 def Frame.isReg (f : Frame) : Bool := f.topic = xsContext && f.ctx = 0
 
+/-- `Store::insert_frame` after the NUL check: one batch (tombstones for the index keys of
+    a frame being overwritten, then the three inserts), then the registry update -/
+def State.insertFrameCore (s : State) (f : Frame) : State :=
+  let tk := topicKey f.ctx f.topic f.id
+  let ck := ctxKey f.ctx f.id
+  let old := s.get f.id
+  let idxT := match old with
+    | none => s.idxT
+    | some o =>
+      let otk := topicKey o.ctx o.topic o.id
+      if !hasNul o.topic && otk ≠ tk then Part.erase otk s.idxT else s.idxT
+  let idxC := match old with
+    | none => s.idxC
+    | some o =>
+      let ock := ctxKey o.ctx o.id
+      if ock ≠ ck then Part.erase ock s.idxC else s.idxC
+  let contexts := match old with
+    | none => s.contexts
+    | some o => if o.isReg && o.id ≠ 0 then s.contexts.erase o.id else s.contexts
+  { s with
+    stream := Part.insert (idKey f.id) f s.stream
+    idxT := Part.insert tk () idxT
+    idxC := Part.insert ck () idxC
+    contexts := if f.isReg then ctxInsert f.id contexts else contexts }
+
 /-- `Store::insert_frame` (also the whole of `POST /import`) -/
 def State.insertFrame (s : State) (f : Frame) : Except Err State :=
+  if hasNul f.topic then .error .nulInTopic else .ok (s.insertFrameCore f)
+
+/-- `Store::append`, first part: the `xs.context` branch / the registry check -/
+def State.appendPre (s : State) (f : Frame) : Except Err (State × Frame) :=
+  if f.topic = xsContext then
+    if f.ctx ≠ 0 then .error .ctxFrameNotZero
+    else .ok ({ s with contexts := ctxInsert f.id s.contexts }, { f with ttl := some .forever })
+  else if f.ctx ∈ s.contexts then .ok (s, f)
+  else .error .invalidContext
+
+/-- the gc task `append` queues for a stored frame -/
+def headTask (f : Frame) : List GCTask :=
+  match f.ttl with
+  | some (.head n) => [GCTask.checkHead f.ctx f.topic n]
+  | _ => []
+
+/-- `Store::append`, second part: NUL check, store unless ephemeral, queue the head
+    check, broadcast -/
+def State.appendStore (s : State) (f : Frame) : Except Err (State × Frame) :=
   if hasNul f.topic then .error .nulInTopic
+  else if f.ttl = some .ephemeral then
+    .ok ({ s with bcast := s.bcast ++ [f] }, f)
   else
-    let tk := topicKey f.ctx f.topic f.id
-    let ck := ctxKey f.ctx f.id
-    -- an id being overwritten: drop the replaced frame's index entries
-    let (idxT, idxC, contexts) := match s.get f.id with
-      | none => (s.idxT, s.idxC, s.contexts)
-      | some old =>
-        let otk := topicKey old.ctx old.topic old.id
-        let ock := ctxKey old.ctx old.id
-        (if !hasNul old.topic && otk ≠ tk then Part.erase otk s.idxT else s.idxT,
-         if ock ≠ ck then Part.erase ock s.idxC else s.idxC,
-         if old.isReg then s.contexts.erase old.id else s.contexts)
-    .ok { s with
-      stream := Part.insert (idKey f.id) f s.stream
-      idxT := Part.insert tk () idxT
-      idxC := Part.insert ck () idxC
-      contexts := if f.isReg then ctxInsert f.id contexts else contexts }
+    let s1 := s.insertFrameCore f
+    .ok ({ s1 with gcq := s1.gcq ++ headTask f, bcast := s1.bcast ++ [f] }, f)
 
 /-- `Store::append`; `id` is what `scru128::new()` returned -/
 def State.append (s : State) (f0 : Frame) (id : Nat) : Except Err (State × Frame) :=
-  let f := { f0 with id := id }
-  let pre : Except Err (State × Frame) :=
-    if f.topic = xsContext then
-      if f.ctx ≠ 0 then .error .ctxFrameNotZero
-      else .ok ({ s with contexts := ctxInsert id s.contexts },
-                { f with ttl := some .forever })
-    else if f.ctx ∈ s.contexts then .ok (s, f)
-    else .error .invalidContext
-  match pre with
+  match s.appendPre { f0 with id := id } with
   | .error e => .error e
-  | .ok (s, f) =>
-    if hasNul f.topic then .error .nulInTopic
-    else if f.ttl = some .ephemeral then
-      .ok ({ s with bcast := s.bcast ++ [f] }, f)
-    else
-      match s.insertFrame f with
-      | .error e => .error e
-      | .ok s =>
-        let s := match f.ttl with
-          | some (.head n) => { s with gcq := s.gcq ++ [GCTask.checkHead f.ctx f.topic n] }
-          | _ => s
-        .ok ({ s with bcast := s.bcast ++ [f] }, f)
+  | .ok (s1, f) => s1.appendStore f
 
 /-- `Store::remove` -/
 def State.remove (s : State) (id : Nat) : State :=
@@ -108,20 +121,26 @@ def State.head (s : State) (t : List Nat) (c : Nat) : Option Frame :=
   (Part.scanPrefix (topicPrefix c t) s.idxT).reverse.findSome?
     (fun kv => s.get (idOfTopicKey kv.1))
 
+/-- start bound of the context-index scan: `Excluded(ctx‖last)` or `Included(ctx)` -/
+def ctxLower (c : Nat) (last : Option Nat) : Part.Bound :=
+  match last with
+  | some l => .excluded (be 16 c ++ be 16 l)
+  | none => .included (be 16 c)
+
+/-- start bound of the all-contexts scan: `Excluded(last)` or unbounded -/
+def allLower (last : Option Nat) : Part.Bound :=
+  match last with
+  | some l => .excluded (idKey l)
+  | none => .unbounded
+
 /-- `Store::iter_frames` -/
 def State.iterFrames (s : State) (ctx : Option Nat) (last : Option Nat) : List Frame :=
   match ctx with
   | some c =>
-    let lo := match last with
-      | some l => Part.Bound.excluded (be 16 c ++ be 16 l)
-      | none => Part.Bound.included (be 16 c)
-    (Part.range lo (.excluded (ctxRangeEnd c)) s.idxC).filterMap
+    (Part.range (ctxLower c last) (.excluded (ctxRangeEnd c)) s.idxC).filterMap
       (fun kv => if kv.1.length = 32 then s.get (idOfCtxKey kv.1) else none)
   | none =>
-    let lo := match last with
-      | some l => Part.Bound.excluded (idKey l)
-      | none => Part.Bound.unbounded
-    (Part.range lo .unbounded s.stream).map (·.2)
+    (Part.range (allLower last) .unbounded s.stream).map (·.2)
 
 /-- `.filter(expired → enqueue Remove, drop).take(limit)` pulled to exhaustion:
     returns the frames and the `Remove` tasks enqueued while pulling. -/
